@@ -81,6 +81,15 @@ theorem C06_eval_apply_right_eq_embed {b : Builder α} {m : T α} {loc : List Na
         = embedMatrix (prod b.radixes) b.radixes m loc * toMatrix (prod b.radixes) b.tensor :=
   evalApplyRight_matrix hb hloc hm
 
+/-- `eval_apply_left(M, loc)` = `builder · embed M loc`. -/
+theorem C06_eval_apply_left_eq_embed {b : Builder α} {m : T α} {loc : List Nat} (hb : b.WF)
+    (hloc : isLocation loc b.radixes.length = true)
+    (hm : m.shape = [prod (loc.map (b.radixes.getD · 0)), prod (loc.map (b.radixes.getD · 0))]) :
+    ∃ e, b.evalApplyLeft m loc = .ok e ∧ e.shape = [prod b.radixes, prod b.radixes] ∧ e.WF ∧
+      toMatrix (prod b.radixes) e
+        = toMatrix (prod b.radixes) b.tensor * embedMatrix (prod b.radixes) b.radixes m loc :=
+  evalApplyLeft_matrix hb hloc hm
+
 /-- `StateVector.apply(utry, loc)` = `embed utry loc · vec` when the state's radixes are
 `rad`. -/
 theorem C06_statevector_apply_eq_embed (conj : α → α) {rad : List Nat} {vec : T α} {u : UM α}
